@@ -1,0 +1,48 @@
+//! Verification hook (feature `verif`): an in-memory stand-in for `std::net::UdpSocket` offering exactly the
+//! methods the transports use, backed by a thread-local network object that a simulator installs.
+use std::{cell::RefCell, io, net::SocketAddr, rc::Rc};
+
+pub trait VerifNet {
+    fn send_to(&self, from: SocketAddr, buf: &[u8], to: SocketAddr) -> io::Result<usize>;
+    fn recv_from(&self, at: SocketAddr, buf: &mut [u8]) -> io::Result<(usize, SocketAddr)>;
+}
+
+thread_local! {
+    static NET: RefCell<Option<Rc<dyn VerifNet>>> = const { RefCell::new(None) };
+}
+
+pub fn install(net: Option<Rc<dyn VerifNet>>) {
+    NET.with(|n| *n.borrow_mut() = net);
+}
+
+fn net() -> io::Result<Rc<dyn VerifNet>> {
+    NET.with(|n| n.borrow().clone())
+        .ok_or_else(|| io::Error::new(io::ErrorKind::NotConnected, "no simulated network installed"))
+}
+
+#[derive(Debug)]
+pub struct UdpSocket {
+    addr: SocketAddr,
+}
+
+impl UdpSocket {
+    pub fn verif_bind(addr: SocketAddr) -> Self {
+        Self { addr }
+    }
+
+    pub fn set_nonblocking(&self, _nonblocking: bool) -> io::Result<()> {
+        Ok(())
+    }
+
+    pub fn local_addr(&self) -> io::Result<SocketAddr> {
+        Ok(self.addr)
+    }
+
+    pub fn send_to(&self, buf: &[u8], addr: SocketAddr) -> io::Result<usize> {
+        net()?.send_to(self.addr, buf, addr)
+    }
+
+    pub fn recv_from(&self, buf: &mut [u8]) -> io::Result<(usize, SocketAddr)> {
+        net()?.recv_from(self.addr, buf)
+    }
+}
